@@ -92,9 +92,25 @@ class Registry:
     def ghost_code(self, qname: str, anchor: str, code: str):
         self.ghost.setdefault(qname, []).append(GhostCode(qname, anchor, code))
 
+    def lemma(self, name: str, params, statement: str):
+        """A closed lemma: proved once, stand-alone (no path condition); instantiated by use_lemma(name, args...)
+        in ghost code."""
+        self.lemmas.append({"name": name, "params": params, "statement": statement})
+
     def spec(self, name: str):
         def deco(fn):
-            self.specs[name] = fn
+            if name.startswith("on_"):
+                # hooks accumulate: every registered hook is called
+                prev = self.specs.get(name)
+                if prev is None:
+                    self.specs[name] = fn
+                else:
+                    def both(*a, _p=prev, _f=fn, **k):
+                        _p(*a, **k)
+                        return _f(*a, **k)
+                    self.specs[name] = both
+            else:
+                self.specs[name] = fn
             return fn
         return deco
 
@@ -112,5 +128,6 @@ class Registry:
             mod.loop = self.loop
             mod.ghost_code = self.ghost_code
             mod.spec = self.spec
+            mod.lemma = self.lemma
             spec.loader.exec_module(mod)
         return self
